@@ -175,6 +175,15 @@ def run(ctx):
             names, cl, muts, point_of, cluster_of = inputs(n, clustered)
             jobs.append({"n_points": n, "n_samples": ns, "names": names, "clusters": cl, "chains": {0: [(-1, spec, ("perm", ctx.rng.randrange(10**6)))]}, "cmds": cmds, "want_trees": True, "outlier_prob": 0.1})
             meta.append({"kind": "single", "spec": spec, "n": n, "ns": ns, "clustered": clustered, "muts": muts, "point_of": point_of, "cluster_of": cluster_of, "names": names, "cl": cl})
+    # more than ten samples (sample names of different digit counts: "S10" sorts before "S2")
+    for _ in range(4 if ctx.quick else 40):
+        n = 3
+        spec = random_spec(ctx.rng, range(n), outlier_frac=0.3, max_block=2)
+        clustered = ctx.rng.random() < 0.5
+        ns = ctx.rng.choice([11, 12])
+        names, cl, muts, point_of, cluster_of = inputs(n, clustered)
+        jobs.append({"n_points": n, "n_samples": ns, "names": names, "clusters": cl, "chains": {0: [(-1, spec, ("perm", ctx.rng.randrange(10**6)))]}, "cmds": cmds, "want_trees": True, "outlier_prob": 0.1})
+        meta.append({"kind": "single", "spec": spec, "n": n, "ns": ns, "clustered": clustered, "muts": muts, "point_of": point_of, "cluster_of": cluster_of, "names": names, "cl": cl})
     # multi-tree traces: consensus trees may contain clones without data
     specs3 = [s for s in all_specs(range(3), outliers=True) if s[0]]
     for _ in range(120 if ctx.quick else 3000):
